@@ -2,7 +2,7 @@
 PROPS["C19"] = dict(
     props_file="Properties/C19.v",
     # C19_THOROUGH / C19_RACE: developer overrides for mutation runs in a scratch worktree (registered commands never set them)
-    harnesses=[dict(cmd="convert", mod="root", model="Model.Convert", quick=120, thorough=int(_os.environ.get("C19_THOROUGH", "700")), shard=60, timeout=1500,
+    harnesses=[dict(cmd="convert", mod="root", model="Model.Convert", quick=100, thorough=int(_os.environ.get("C19_THOROUGH", "700")), shard=60, timeout=1500,
                     race=int(_os.environ.get("C19_RACE", "24")), race_timeout=3000,
                     require=["kind.esgz", "kind.zstd", "kind.ext", "kind.extll", "api.common", "api.perlayer", "parallel",
                              "src.none", "src.gzip", "src.zstd", "src.esgz", "fam.oci", "fam.docker", "fam.ocind",
